@@ -252,7 +252,7 @@ func first(a, _ []byte) []byte { return a }
 // allocation type; leafT() is the leaf type of the tree kind in question - node-level proofs
 // hold for every value of leafT()).
 //@ spec tyOf(k) = ite(k == 0, typeid(node4), ite(k == 1, typeid(node16), ite(k == 2, typeid(node48), ite(k == 3, typeid(node256), leafT()))))
-//@ spec okRef(r) = r.pointer != nil && inT(r.pointer) && r.tag <= 4 && atype(r.pointer) == tyOf(r.tag)
+//@ spec okRef(r) = r.pointer != nil && inT(r.pointer) && !pooled(r.pointer) && r.tag <= 4 && atype(r.pointer) == tyOf(r.tag)
 //@ spec okChild(n, r) = okRef(r) && r.pointer != n
 //@ spec Inv4(n) = n.childrenLen <= 4 && forall(i, 0, 3, implies(i+1 < n.childrenLen, lane(n.keys,i) < lane(n.keys,i+1))) && forall(i, 0, 3, implies(i >= n.childrenLen, lane(n.keys,i) >= lane(n.keys,i+1))) && forall(i, 0, 4, implies(i < n.childrenLen, okChild(n, n.children[i])))
 //@ spec Inv16(n) = n.childrenLen <= 16 && forall(i, 0, 15, implies(i+1 < n.childrenLen, n.keys[i] < n.keys[i+1])) && forall(i, 0, 16, implies(i < n.childrenLen, okChild(n, n.children[i])))
@@ -284,24 +284,28 @@ func first(a, _ []byte) []byte { return a }
 //@   assigns SP ST B node.prefixLen node.childrenLen node4.keys pooled
 //@   requires n4 != nil
 //@   ensures[zero] Zero4(n4)
+//@   ensures[pool] pooledIs(n4, false)
 //@   ensures[frame] frame(n4)
 
 //@ func (*node16).clear
 //@   assigns SP ST B node.prefixLen node.childrenLen node4.keys pooled
 //@   requires n16 != nil
 //@   ensures[zero] Zero16(n16)
+//@   ensures[pool] pooledIs(n16, false)
 //@   ensures[frame] frame(n16)
 
 //@ func (*node48).clear
 //@   assigns SP ST B node.prefixLen node.childrenLen node4.keys pooled
 //@   requires n48 != nil
 //@   ensures[zero] Zero48(n48)
+//@   ensures[pool] pooledIs(n48, false)
 //@   ensures[frame] frame(n48)
 
 //@ func (*node256).clear
 //@   assigns SP ST B node.prefixLen node.childrenLen node4.keys pooled
 //@   requires n256 != nil
 //@   ensures[zero] Zero256(n256)
+//@   ensures[pool] pooledIs(n256, false)
 //@   ensures[frame] frame(n256)
 
 //@ func (*nodeRef).findChild
@@ -325,6 +329,7 @@ func first(a, _ []byte) []byte { return a }
 //@   ensures[view] forallp(x, 0, 256, lookP256(n256, x) == ite(x == b, child.pointer, old(lookP256(n256, x))) && lookT256(n256, x) == ite(x == b, child.tag, old(lookT256(n256, x))))
 //@   ensures[inv] Inv256(n256)
 //@   ensures[hdr] hdrSame(n256, n256)
+//@   ensures[pool] pooledIs(n256, false)
 //@   ensures[fan] cntP(n256.children, 256) == old(cntP(n256.children, 256)) + 1
 //@   ensures[frame] frame(n256)
 //@   assigns SP ST node.childrenLen
@@ -336,6 +341,7 @@ func first(a, _ []byte) []byte { return a }
 //@   ensures[view] forallp(x, 0, 256, lookP(*ref, x) == ite(x == b, child.pointer, old(lookP48(n48, x))) && lookT(*ref, x) == ite(x == b, child.tag, old(lookT48(n48, x))))
 //@   ensures[inv] typeOK(*ref) && okRef(*ref) && InvRef(*ref)
 //@   ensures[hdr] hdrSame((*ref).pointer, n48)
+//@   ensures[pool] pooledIs(n48, (*ref).pointer != n48)
 //@   ensures[fan] fanOf(*ref) == old(n48.childrenLen) + 1 && implies(old(fanMin(*ref)), fanMin(*ref))
 //@   ensures[replaced] (*ref).pointer == n48 || (fresh((*ref).pointer) && Zero48(n48))
 //@   ensures[frame] frame(n48, ref.obj, (*ref).pointer) && frameSlot(ref)
@@ -357,6 +363,7 @@ func first(a, _ []byte) []byte { return a }
 //@   ensures[view] forallp(x, 0, 256, lookP(*ref, x) == ite(x == b, child.pointer, old(lookP16(n16, x))) && lookT(*ref, x) == ite(x == b, child.tag, old(lookT16(n16, x))))
 //@   ensures[inv] typeOK(*ref) && okRef(*ref) && InvRef(*ref)
 //@   ensures[hdr] hdrSame((*ref).pointer, n16)
+//@   ensures[pool] pooledIs(n16, (*ref).pointer != n16)
 //@   ensures[fan] fanOf(*ref) == old(n16.childrenLen) + 1 && implies(old(fanMin(*ref)), fanMin(*ref))
 //@   ensures[replaced] (*ref).pointer == n16 || (fresh((*ref).pointer) && Zero16(n16))
 //@   ensures[frame] frame(n16, ref.obj, (*ref).pointer) && frameSlot(ref)
@@ -375,6 +382,7 @@ func first(a, _ []byte) []byte { return a }
 //@   ensures[view] forallp(x, 0, 256, lookP(*ref, x) == ite(x == b, child.pointer, old(lookP4(n4, x))) && lookT(*ref, x) == ite(x == b, child.tag, old(lookT4(n4, x))))
 //@   ensures[inv] typeOK(*ref) && okRef(*ref) && InvRef(*ref)
 //@   ensures[hdr] hdrSame((*ref).pointer, n4)
+//@   ensures[pool] pooledIs(n4, (*ref).pointer != n4)
 //@   ensures[fan] fanOf(*ref) == old(n4.childrenLen) + 1 && implies(old(fanMin(*ref)), fanMin(*ref))
 //@   ensures[replaced] (*ref).pointer == n4 || (fresh((*ref).pointer) && Zero4(n4))
 //@   ensures[frame] frame(n4, ref.obj, (*ref).pointer) && frameSlot(ref)
@@ -388,6 +396,7 @@ func first(a, _ []byte) []byte { return a }
 //@   ensures[view] forallp(x, 0, 256, lookP(*ptr, x) == ite(x == b, child.pointer, old(lookP(*ptr, x))) && lookT(*ptr, x) == ite(x == b, child.tag, old(lookT(*ptr, x))))
 //@   ensures[inv] typeOK(*ptr) && okRef(*ptr) && InvRef(*ptr)
 //@   ensures[hdr] hdrSame((*ptr).pointer, old((*ptr).pointer))
+//@   ensures[pool] pooledIs(old((*ptr).pointer), (*ptr).pointer != old((*ptr).pointer))
 //@   ensures[fan] fanOf(*ptr) == old(fanOf(*ptr)) + 1 && implies(old(fanMin(*ptr)), fanMin(*ptr))
 //@   ensures[zeroed] implies((*ptr).pointer != old((*ptr).pointer), ZeroRef(old((*ptr).pointer), old((*ptr).tag)))
 //@   ensures[replaced] (*ptr).pointer == old((*ptr).pointer) || fresh((*ptr).pointer)
@@ -404,6 +413,7 @@ func first(a, _ []byte) []byte { return a }
 //@   ensures[view] forallp(x, 0, 256, lookP(*ref, x) == ite(x == b, nil, old(lookP256(n256, x))) && lookT(*ref, x) == ite(x == b, 0, old(lookT256(n256, x))))
 //@   ensures[inv] typeOK(*ref) && okRef(*ref) && InvRef(*ref)
 //@   ensures[hdr] hdrSame((*ref).pointer, n256)
+//@   ensures[pool] pooledIs(n256, (*ref).pointer != n256)
 //@   ensures[fan] fanOf(*ref) == old(fanOf(*ref)) - 1 && implies(old(fanMin(*ref)), fanMin(*ref))
 //@   ensures[replaced] (*ref).pointer == n256 || (fresh((*ref).pointer) && Zero256(n256))
 //@   ensures[frame] frame(n256, ref.obj, (*ref).pointer) && frameSlot(ref)
@@ -430,6 +440,7 @@ func first(a, _ []byte) []byte { return a }
 //@   ensures[view] forallp(x, 0, 256, lookP(*ref, x) == ite(x == b, nil, old(lookP48(n48, x))) && lookT(*ref, x) == ite(x == b, 0, old(lookT48(n48, x))))
 //@   ensures[inv] typeOK(*ref) && okRef(*ref) && InvRef(*ref)
 //@   ensures[hdr] hdrSame((*ref).pointer, n48)
+//@   ensures[pool] pooledIs(n48, (*ref).pointer != n48)
 //@   ensures[fan] fanOf(*ref) == old(fanOf(*ref)) - 1 && implies(old(fanMin(*ref)), fanMin(*ref))
 //@   ensures[replaced] (*ref).pointer == n48 || (fresh((*ref).pointer) && Zero48(n48))
 //@   ensures[frame] frame(n48, ref.obj, (*ref).pointer) && frameSlot(ref)
@@ -455,6 +466,7 @@ func first(a, _ []byte) []byte { return a }
 //@   ensures[view] forallp(x, 0, 256, lookP(*ref, x) == ite(x == b, nil, old(lookP16(n16, x))) && lookT(*ref, x) == ite(x == b, 0, old(lookT16(n16, x))))
 //@   ensures[inv] typeOK(*ref) && okRef(*ref) && InvRef(*ref)
 //@   ensures[hdr] hdrSame((*ref).pointer, n16)
+//@   ensures[pool] pooledIs(n16, (*ref).pointer != n16)
 //@   ensures[fan] fanOf(*ref) == old(fanOf(*ref)) - 1 && implies(old(fanMin(*ref)), fanMin(*ref))
 //@   ensures[replaced] (*ref).pointer == n16 || (fresh((*ref).pointer) && Zero16(n16))
 //@   ensures[frame] frame(n16, ref.obj, (*ref).pointer) && frameSlot(ref)
@@ -481,6 +493,7 @@ func first(a, _ []byte) []byte { return a }
 //@   ensures[view] implies(old(n4.childrenLen) > 2, forallp(x, 0, 256, lookP(*ref, x) == ite(x == b, nil, old(lookP4(n4, x))) && lookT(*ref, x) == ite(x == b, 0, old(lookT4(n4, x)))))
 //@   ensures[inv] implies(old(n4.childrenLen) > 2, (*ref).pointer == n4 && (*ref).tag == 0 && Inv4(n4) && n4.childrenLen >= 2)
 //@   ensures[hdr] implies(old(n4.childrenLen) > 2, hdrSame(n4, n4))
+//@   ensures[pool] pooledIs(n4, old(n4.childrenLen) == 2)
 //@   ensures[fan] implies(old(n4.childrenLen) > 2, n4.childrenLen == old(n4.childrenLen) - 1)
 //@   ensures[merge_link] implies(old(n4.childrenLen) == 2, (*ref).pointer == sP && (*ref).tag == sT && Zero4(n4))
 //@   ensures[merge_len] implies(old(n4.childrenLen) == 2 && sT != 4, as(node, sP).prefixLen == P + 1 + L)
@@ -505,6 +518,7 @@ func first(a, _ []byte) []byte { return a }
 //@   ensures[view] implies(!merge, forallp(x, 0, 256, lookP(*ptr, x) == ite(x == b, nil, old(lookP(*ptr, x))) && lookT(*ptr, x) == ite(x == b, 0, old(lookT(*ptr, x)))))
 //@   ensures[inv] implies(!merge, typeOK(*ptr) && okRef(*ptr) && InvRef(*ptr))
 //@   ensures[hdr] implies(!merge, hdrSame((*ptr).pointer, n0))
+//@   ensures[pool] pooledIs(n0, (*ptr).pointer != n0)
 //@   ensures[fan] implies(!merge, fanOf(*ptr) == old(fanOf(*ptr)) - 1 && implies(old(fanMin(*ptr)), fanMin(*ptr)))
 //@   ensures[zeroed] implies((*ptr).pointer != n0, ZeroRef(n0, old((*ptr).tag)))
 //@   ensures[replaced] implies(!merge, (*ptr).pointer == n0 || fresh((*ptr).pointer))
@@ -543,11 +557,11 @@ func first(a, _ []byte) []byte { return a }
 //@     invariant depth <= idx && forall(i, depth, idx, key[i] == other[i]) && implies(depth <= maxCmp, idx <= maxCmp) && implies(depth > maxCmp, idx == depth)
 //@     decreases maxCmp - idx
 
-//@ spec NodeOK(o) = implies(atype(o) == typeid(node4), Zero4(as(node4, o)) || (Inv4(as(node4, o)) && as(node4, o).childrenLen >= 2)) && implies(atype(o) == typeid(node16), Zero16(as(node16, o)) || (Inv16(as(node16, o)) && as(node16, o).childrenLen >= 4)) && implies(atype(o) == typeid(node48), Zero48(as(node48, o)) || (Inv48(as(node48, o)) && as(node48, o).childrenLen >= 13)) && implies(atype(o) == typeid(node256), Zero256(as(node256, o)) || (Inv256(as(node256, o)) && cntP(as(node256, o).children, 256) >= 38))
+//@ spec NodeOK(o) = implies(atype(o) == typeid(node4), Inv4(as(node4, o)) && as(node4, o).childrenLen >= 2) && implies(atype(o) == typeid(node16), Inv16(as(node16, o)) && as(node16, o).childrenLen >= 4) && implies(atype(o) == typeid(node48), Inv48(as(node48, o)) && as(node48, o).childrenLen >= 13) && implies(atype(o) == typeid(node256), Inv256(as(node256, o)) && cntP(as(node256, o).children, 256) >= 38)
 //@ spec rootOK(r) = r.pointer == nil || okRef(r)
 
 //@ spec LeafOK_alpha(o) = as(alphaLeafNode, o).key.obj != nil && allocated(as(alphaLeafNode, o).key.obj) && 0 <= as(alphaLeafNode, o).key.idx && as(alphaLeafNode, o).key.idx + as(alphaLeafNode, o).len <= blen(as(alphaLeafNode, o).key.obj)
-//@ spec HeapOK_alpha() = forallref(o, implies(inT(o) && allocated(o) && o != nil, NodeOK(o) && implies(atype(o) == leafT(), LeafOK_alpha(o))))
+//@ spec HeapOK_alpha() = forallref(o, implies(inT(o) && allocated(o) && o != nil && !pooled(o), NodeOK(o) && implies(atype(o) == leafT(), LeafOK_alpha(o))))
 //@ spec WF1_alpha(t) = t != nil && allocated(t) && atype(t) == typeid(alphaSortedTree) && leafT() == typeid(alphaLeafNode) && rootOK(t.root) && HeapOK_alpha()
 //@ spec sizeSane(t) = 0 <= t.size && t.size < 4611686018427387904
 
@@ -598,7 +612,7 @@ func first(a, _ []byte) []byte { return a }
 
 // HeapOKN: the class-invariant part of the tree invariant (no leaf clause): what the
 // shared descent helpers need.
-//@ spec HeapOKN() = forallref(o, implies(inT(o) && allocated(o) && o != nil, NodeOK(o)))
+//@ spec HeapOKN() = forallref(o, implies(inT(o) && allocated(o) && o != nil && !pooled(o), NodeOK(o)))
 //@ spec isLeafRef(r) = r.tag == 4
 
 //@ func minimum
@@ -608,7 +622,7 @@ func first(a, _ []byte) []byte { return a }
 //@   ensures[leaf] implies(result != nil, inT(result) && atype(result) == leafT())
 //@   assigns nothing
 //@   loop 1 (ref)
-//@     invariant okRef(ref)
+//@     invariant ref.pointer == nil || okRef(ref)
 //@   loop 2 (idx)
 //@     invariant 0 <= idx && idx <= 256 && cntNZ(n48.keys, idx) == 0
 //@     decreases 256 - idx
@@ -623,7 +637,7 @@ func first(a, _ []byte) []byte { return a }
 //@   ensures[leaf] implies(result != nil, inT(result) && atype(result) == leafT())
 //@   assigns nothing
 //@   loop 1 (ref)
-//@     invariant okRef(ref)
+//@     invariant ref.pointer == nil || okRef(ref)
 //@   loop 2 (idx)
 //@     invariant 0 - 1 <= idx && idx <= 255 && cntNZ(n48.keys, 256) == cntNZ(n48.keys, idx + 1)
 //@     decreases idx + 1
